@@ -210,8 +210,7 @@ def leaf_out(r):
         for (sh, dt), b in zip(St.leaves(S), r['blocks']['per_leaf']):
             y = np.einsum(r['subscripts'].replace(' ', ''), np.zeros(np.shape(b)), np.zeros(sh))
             shapes.append((y.shape, dt))
-        it = iter(shapes)
-        return St.map_leaves(S, lambda sh, dt: next(it))
+        return St.replace_leaves(S, shapes)
 
     def f(sh, dt):
         y = np_apply(r, [np.zeros(sh)])[0]
@@ -300,6 +299,9 @@ def container_depth(c) -> int:
 # numpy denotation
 
 
+P32_SCALARS = ('np_f32', 'np_0d', 'jax_0d', 'np_i32')
+
+
 class Den:
     __slots__ = ('M', 'A', 'in_S', 'out_S', 'flags', 'nf')
 
@@ -359,9 +361,25 @@ def denote(r, defs, memo=None) -> Den:
         flags = set()
         if k == 'rot' and r['in']['kind'] != 'I':
             flags.add('trig')
-        if k == 'toeplitz' and r.get('method', 'overlap_save') in ('fft', 'overlap_save'):
+        if k == 'toeplitz' and (r.get('method') or 'overlap_save') in ('fft', 'overlap_save'):
             flags.add('fft')
-        return Den(M, np.abs(M), r['in'], leaf_out(r), flags, 1)
+        if k in ('diag', 'bdiag', 'dense', 'toeplitz', 'rot') and r.get('vdtype', 'float32') == 'float32':
+            flags.add('p32')  # float32 parameters: anything derived from them (1/d, cos, FFT) is float32-accurate
+        if k == 'hom' and r.get('ty', 'py_float') in P32_SCALARS:
+            flags.add('p32')
+        A = np.abs(M)
+        if 'trig' in flags:
+            # the rounding error of cos/sin is relative to 1, not to the (possibly tiny) entry
+            r2 = dict(r, angles=(np.asarray(r['angles'], dtype=float) + 0.3).tolist())
+            A = np.maximum(A, (np.abs(M) + np.abs(leaf_matrix(r2)) > 0).astype(float))
+        if 'fft' in flags:
+            # FFT round-off spreads over the whole row of a Toeplitz block
+            n = r['in']['shape'][-1]
+            rowmax = A.max(axis=1, initial=0.0)
+            for i in range(A.shape[0]):
+                b = (i // n) * n
+                A[i, b : b + n] = np.maximum(A[i, b : b + n], rowmax[i])
+        return Den(M, A, r['in'], leaf_out(r), flags, 1)
     if k == 'compose':
         ds = [denote(o, defs, memo) for o in r['ops']]
         M, A = ds[0].M, ds[0].A
@@ -383,7 +401,10 @@ def denote(r, defs, memo=None) -> Den:
         d = denote(r['op'], defs, memo)
         v = float(r['value'])
         f = 1.0 / v if r['form'] == 'A/k' else v
-        return Den(f * d.M, abs(f) * d.A, d.in_S, d.out_S, d.flags, d.nf + 1)
+        fl = set(d.flags)
+        if r.get('ty', 'py_float') in P32_SCALARS:
+            fl.add('p32')
+        return Den(f * d.M, abs(f) * d.A, d.in_S, d.out_S, fl, d.nf + 1)
     if k == 'neg':
         d = denote(r['op'], defs, memo)
         return Den(-d.M, d.A, d.in_S, d.out_S, d.flags, d.nf + 1)
@@ -486,7 +507,7 @@ def _idx_jax(items):
         elif 'e' in it:
             out.append(Ellipsis)
         elif 'a' in it:
-            out.append(jnp.asarray(np.asarray(it['a'], dtype=np.int32)))
+            out.append(jnp.asarray(np.asarray(it['a'], dtype=np.dtype(it.get('dt', 'int32')))))
         elif 'm' in it:
             out.append(jnp.asarray(np.asarray(it['m'], dtype=bool)))
     return tuple(out)
@@ -743,6 +764,8 @@ def tolerance(den: Den, absx: np.ndarray, eps: float, c_extra: float = 0.0) -> n
     """Forward error bound |impl - ref| <= c * eps * (A |x|) + tiny, per output element."""
     scale = den.A @ absx
     c = 8.0 * den.nf + c_extra
+    if 'p32' in den.flags:
+        eps = max(eps, float(np.finfo(np.float32).eps))
     if 'trig' in den.flags:
         c += 32.0
     if 'fft' in den.flags:
